@@ -227,7 +227,14 @@ func comparatorOK(c *Ctx, less *ssa.Function) (bool, string) {
 		a := c.FA(less)
 		rs := a.returns()
 		if len(rs) != 1 || len(less.Blocks) != 1 {
-			return false, "comparator has several paths (a case distinction inside a comparator is rarely a strict weak order)"
+			// a comparator with a case distinction: accepted as lexicographic when every comparison in it
+			// is between the same projection of the two elements and every result is such a comparison
+			// or a constant (`if a.x != b.x { return a.x < b.x }; return a.y < b.y`)
+			if projs, ok, why := lexComparator(c, less); ok {
+				return true, "lexicographic over " + strings.Join(projs, ", ") + " of the two elements"
+			} else {
+				return false, "comparator has several paths and is not a lexicographic comparison of projections of its two elements (" + why + ")"
+			}
 		}
 		v := rs[0].Results[0]
 		if call, ok := v.(*ssa.Call); ok && call.Call.StaticCallee() != nil && (call.Call.StaticCallee().String() == "strings.Compare" || call.Call.StaticCallee().String() == "cmp.Compare") {
@@ -239,6 +246,86 @@ func comparatorOK(c *Ctx, less *ssa.Function) (bool, string) {
 		}
 		return sameFieldOfTwo(a, b.X, b.Y)
 	}
+}
+
+// lexComparator: every comparison instruction of less relates the same projection of its two
+// elements, and every returned value is one of those comparisons, a boolean constant, or a phi of
+// such. Returns the projections compared (as shapes).
+func lexComparator(c *Ctx, less *ssa.Function) ([]string, bool, string) {
+	a := c.FA(less)
+	seen := map[string]bool{}
+	var projs []string
+	okCmp := map[ssa.Value]bool{}
+	for _, b := range less.Blocks {
+		for _, in := range b.Instrs {
+			var x, y ssa.Value
+			switch v := in.(type) {
+			case *ssa.BinOp:
+				switch v.Op {
+				case token.LSS, token.GTR, token.LEQ, token.GEQ, token.EQL, token.NEQ:
+					x, y = v.X, v.Y
+				default:
+					continue
+				}
+				// comparisons with constants (cmp results against 0) are judged through their operand
+				if _, isC := y.(*ssa.Const); isC {
+					if call, ok := x.(*ssa.Call); ok && okCmp[call] {
+						okCmp[v] = true
+						continue
+					}
+					return nil, false, "compares " + a.Desc(x) + " with a constant"
+				}
+			case *ssa.Call:
+				sc := v.Call.StaticCallee()
+				if sc == nil || len(v.Call.Args) != 2 || (sc.String() != "strings.Compare" && sc.String() != "bytes.Compare" && sc.String() != "cmp.Compare") {
+					continue
+				}
+				x, y = v.Call.Args[0], v.Call.Args[1]
+			default:
+				continue
+			}
+			if ok, why := sameFieldOfTwo(a, x, y); !ok {
+				return nil, false, why
+			}
+			okCmp[in.(ssa.Value)] = true
+			sh := collectionShape(a, x)
+			if !seen[sh] {
+				seen[sh] = true
+				projs = append(projs, sh)
+			}
+		}
+	}
+	if len(projs) == 0 {
+		return nil, false, "no comparison of the two elements found"
+	}
+	var okRes func(v ssa.Value, depth int) bool
+	okRes = func(v ssa.Value, depth int) bool {
+		if depth > 6 {
+			return false
+		}
+		switch r := v.(type) {
+		case *ssa.Const:
+			return true
+		case *ssa.Phi:
+			for _, e := range r.Edges {
+				if !okRes(e, depth+1) {
+					return false
+				}
+			}
+			return true
+		case *ssa.UnOp:
+			if r.Op == token.NOT {
+				return okRes(r.X, depth+1)
+			}
+		}
+		return okCmp[v]
+	}
+	for _, r := range a.returns() {
+		if len(r.Results) != 1 || !okRes(r.Results[0], 0) {
+			return nil, false, "a result is neither a comparison of the two elements nor a constant"
+		}
+	}
+	return projs, true, ""
 }
 
 // sameFieldOfTwo: x and y are the same projection of two different elements.
@@ -885,6 +972,43 @@ func uniqueSortKey(a *FnA, ml *mapLoop, sortCall ssa.CallInstruction) (bool, str
 	if d := derivedSortKey(a.c, sortCall); d != "" {
 		return false, "the comparator orders the elements by " + d + ", a value computed from them that two different elements may share"
 	}
+	if less := comparatorOf(a.c, sortCall); less != nil && less.Blocks != nil && (len(less.Blocks) != 1 || len(a.c.FA(less).returns()) != 1) && ml.key != nil {
+		// a lexicographic comparator: one of the projections it compares must be the map's own key
+		fields, identity := comparedFields(a.c, less)
+		for b := range ml.blocks {
+			for _, in := range b.Instrs {
+				call, ok := in.(*ssa.Call)
+				if !ok {
+					continue
+				}
+				bi, ok := call.Call.Value.(*ssa.Builtin)
+				if !ok || bi.Name() != "append" || len(call.Call.Args) != 2 {
+					continue
+				}
+				va, ok := varargs(call.Call.Args[1])
+				if !ok || len(va) != 1 {
+					continue
+				}
+				el := stripConv(va[0])
+				uniq := false
+				if fs, isLit := a.structLit(el); isLit {
+					for _, f := range fields {
+						if v, has := fs[f]; has && stripConv(v) == ml.key {
+							uniq = true
+						}
+					}
+				} else if _, isStruct := el.Type().Underlying().(*types.Struct); isStruct {
+					uniq = true // cannot tell what the fields hold: left to the order check
+				} else {
+					uniq = identity && el == ml.key
+				}
+				if !uniq {
+					return false, fmt.Sprintf("none of the projections the comparator compares (%s; the element itself: %v) holds the map's key for the collected values %s", strings.Join(fields, ", "), identity, a.Desc(el))
+				}
+			}
+		}
+		return true, ""
+	}
 	field, ok := sortField(a.c, sortCall)
 	if !ok || ml.key == nil {
 		return true, ""
@@ -926,6 +1050,9 @@ func uniqueSortKey(a *FnA, ml *mapLoop, sortCall ssa.CallInstruction) (bool, str
 }
 
 func sortComplaint(why string) string {
+	if strings.Contains(why, "a value computed from them") {
+		return "is sorted by a computed key two entries may share"
+	}
 	if strings.Contains(why, "sorted by a key two entries may share") {
 		return "is sorted by a key two entries may share"
 	}
@@ -943,4 +1070,133 @@ func orderFreeUse(a *FnA, r ssa.Instruction, v ssa.Value) bool {
 	d := a.Desc(v)
 	w := a.FactsAt(r.Block())
 	return w.Has("eq(1,builtin.len("+d+"))", true) || (w.Has("lt(1,builtin.len("+d+"))", false) && w.Has("empty("+d+")", false))
+}
+
+// comparedFields: the fields of the elements that the comparisons of less relate (first operand of
+// every comparison of two elements), and whether some comparison relates the elements themselves.
+func comparedFields(c *Ctx, less *ssa.Function) (fields []string, identity bool) {
+	seen := map[string]bool{}
+	note := func(x ssa.Value) {
+		for x != nil {
+			switch y := x.(type) {
+			case *ssa.UnOp:
+				x = y.X
+				continue
+			case *ssa.FieldAddr:
+				if n := fieldName(y.X.Type(), y.Field); !seen[n] {
+					seen[n] = true
+					fields = append(fields, n)
+				}
+				return
+			case *ssa.Field:
+				if n := fieldName(y.X.Type(), y.Field); !seen[n] {
+					seen[n] = true
+					fields = append(fields, n)
+				}
+				return
+			case *ssa.IndexAddr, *ssa.Index, *ssa.Parameter:
+				identity = true
+				return
+			}
+			return
+		}
+	}
+	for _, b := range less.Blocks {
+		for _, in := range b.Instrs {
+			switch v := in.(type) {
+			case *ssa.BinOp:
+				switch v.Op {
+				case token.LSS, token.GTR, token.LEQ, token.GEQ, token.EQL, token.NEQ:
+					if _, isC := v.Y.(*ssa.Const); !isC {
+						note(v.X)
+					}
+				}
+			case *ssa.Call:
+				if sc := v.Call.StaticCallee(); sc != nil && len(v.Call.Args) == 2 && (sc.String() == "strings.Compare" || sc.String() == "bytes.Compare" || sc.String() == "cmp.Compare") {
+					note(v.Call.Args[0])
+				}
+			}
+		}
+	}
+	sort.Strings(fields)
+	return
+}
+
+// ascendingNaturalOrder: the sort orders the elements ascending by themselves (or by a plain field
+// of them): a built-in order, or a comparator all of whose comparisons relate plain projections
+// (no call in between) and whose deciding comparisons are `x(i) < x(j)` / `x(j) > x(i)`.
+func ascendingNaturalOrder(c *Ctx, ci ssa.CallInstruction) (bool, string) {
+	less := comparatorOf(c, ci)
+	if less == nil {
+		return true, "" // sort.Strings and the like
+	}
+	if less.Blocks == nil || len(less.Params) < 2 {
+		return false, "comparator without a body"
+	}
+	// which of the comparator's two parameters (or captured indexes) an operand is drawn from
+	var side func(v ssa.Value, depth int) (int, bool)
+	side = func(v ssa.Value, depth int) (int, bool) {
+		if depth > 8 {
+			return 0, false
+		}
+		switch y := v.(type) {
+		case *ssa.UnOp:
+			return side(y.X, depth+1)
+		case *ssa.FieldAddr:
+			return side(y.X, depth+1)
+		case *ssa.Field:
+			return side(y.X, depth+1)
+		case *ssa.IndexAddr:
+			return side(y.Index, depth+1)
+		case *ssa.Index:
+			return side(y.Index, depth+1)
+		case *ssa.Parameter:
+			n := len(less.Params)
+			for i, p := range less.Params {
+				if p == y {
+					return i - (n - 2), i >= n-2 // the last two parameters are i, j (a method has the receiver first)
+				}
+			}
+		}
+		return 0, false
+	}
+	a := c.FA(less)
+	n := 0
+	for _, b := range less.Blocks {
+		for _, in := range b.Instrs {
+			bo, ok := in.(*ssa.BinOp)
+			if !ok {
+				continue
+			}
+			switch bo.Op {
+			case token.LSS, token.GTR, token.LEQ, token.GEQ, token.EQL, token.NEQ:
+			default:
+				continue
+			}
+			if _, isC := bo.Y.(*ssa.Const); isC {
+				continue
+			}
+			sx, okx := side(bo.X, 0)
+			sy, oky := side(bo.Y, 0)
+			if !okx || !oky {
+				return false, "the comparator compares " + a.Desc(bo.X) + " with " + a.Desc(bo.Y) + ", values computed from the elements rather than the elements themselves"
+			}
+			switch bo.Op {
+			case token.LSS, token.LEQ:
+				if !(sx == 0 && sy == 1) {
+					return false, "the comparator orders descending (" + a.Desc(bo.X) + " < " + a.Desc(bo.Y) + ")"
+				}
+				n++
+			case token.GTR, token.GEQ:
+				if !(sx == 1 && sy == 0) {
+					return false, "the comparator orders descending (" + a.Desc(bo.X) + " > " + a.Desc(bo.Y) + ")"
+				}
+				n++
+			}
+		}
+	}
+	if n == 0 {
+		return false, "no ordering comparison of the two elements found in the comparator"
+	}
+	return true, ""
 }
